@@ -109,14 +109,8 @@ def rule_status(R):
     R.floor("status/lookup-arg", n, 3, "queue lookups in status")
     # the lookups themselves compare identifiers
     for b, q in ((hr, "retained"), (hp, "pending_release")):
-        t = peel(b.local_term(0))
-        ok = is_call(t, "Iterator::any") and any(x[0] == "field" and x[2] == q for x in walk(t))
-        cl = [c for c in f.children(b) if c.kind == "closure"]
-        okc = len(cl) == 1
-        if okc:
-            v = peel(cl[0].local_term(0))
-            okc = v[0] == "bin" and v[1] == "Eq" and {chain(v[2])[1][-1:][0] if chain(v[2])[1] else "", chain(v[3])[1][-1:][0] if chain(v[3])[1] else ""} >= {"packet_id"} \
-                and any(("packet_id" in str(chain(x)[0])) for x in (v[2], v[3]))
+        ok = roles.membership_loop(b, q, roles.eq_test_taken("packet_id", ("param", "packet_id")))
+        okc = True
         R.ob("status/lookup/%s" % b.fn_name, ok and okc,
              "%s is true exactly when some entry of `%s` carries the identifier" % (b.fn_name, q), where=b.span)
     # is_pending / is_complete / is_invalidated map to the three verdicts
